@@ -4,6 +4,7 @@ import (
 	"errors"
 	"fmt"
 	"reflect"
+	"sort"
 	"strings"
 	"testing"
 
@@ -286,6 +287,38 @@ func propC12(c model.Case) hh.Verdict {
 				if calls != 1 {
 					return hh.Fail("Preprocess n%d governs the value at %q, but its function was called %d times with that value's address (expected once) [validate]", id, o.path, calls)
 				}
+			}
+		}
+	}
+	// "at the documented times": tests and custom functions are called once per visit of a node that has a value at that
+	// moment (its input, its Default, what a Preprocess function returned), not at all where the value is absent, a
+	// coercion failed or a Preprocess function refused - whatever other issues the execution has
+	if spec := model.Spec(c.Root, model.SpecCfg{Mode: c.Exec.Mode}, in, model.DeepCopy(before)); spec.Unknown == "" {
+		ran, want := map[int]int{}, map[int]int{}
+		for _, ev := range res.Log {
+			switch ev.Kind {
+			case "test":
+				ran[c12Canon[ev.Node]*1000+ev.Idx]++
+			case "custom":
+				ran[c12Canon[ev.Node]*1000+999]++
+			}
+		}
+		for k, v := range spec.Ran {
+			want[c12Canon[k/1000]*1000+k%1000] += v
+		}
+		var keys []int
+		for k := range want {
+			keys = append(keys, k)
+		}
+		for k := range ran {
+			if _, ok := want[k]; !ok {
+				keys = append(keys, k)
+			}
+		}
+		sort.Ints(keys)
+		for _, k := range keys {
+			if ran[k] != want[k] {
+				return hh.Fail("callback #%d of n%d was called %d times, the documented pipeline calls it %d times [%s]", k%1000, k/1000, ran[k], want[k], c.Exec.Mode)
 			}
 		}
 	}
